@@ -60,14 +60,14 @@ def replay_wulff(data):
         ref = hs.intersections
         uniq = np.unique(np.round(V, 6), axis=0)
         refu = np.unique(np.round(ref, 6), axis=0)
-        if len(uniq) != len(refu) or not np.allclose(uniq, refu, atol=1e-5):
+        if len(uniq) != len(refu) or not np.allclose(uniq, refu, rtol=0, atol=1e-5):
             bad.append("vertex set differs from an independent half-space intersection (%d vs %d vertices)" % (len(uniq), len(refu)))
         T = np.asarray(w.wulff_triangles)
         vol = np.einsum("ij,ij->i", V[T[:, 0]], np.cross(V[T[:, 1]], V[T[:, 2]])).sum() / 6
         if abs(vol - ConvexHull(ref).volume) > 1e-6 * max(1.0, vol):
             bad.append("mesh volume %.6g differs from the polyhedron's %.6g (faces not outward-consistent or not closed)" % (vol, ConvexHull(ref).volume))
         w2 = WulffConstruction(normals, 2.5 * e)
-        if not np.allclose(np.unique(np.round(np.asarray(w2.wulff_vertices, float), 6), axis=0), np.unique(np.round(2.5 * V, 6), axis=0), atol=1e-5):
+        if not np.allclose(np.unique(np.round(np.asarray(w2.wulff_vertices, float), 6), axis=0), np.unique(np.round(2.5 * V, 6), axis=0), rtol=0, atol=1e-5):
             bad.append("scaling the energies by 2.5 does not scale the shape by 2.5")
     return bool(bad), bad[:4]
 
@@ -255,6 +255,14 @@ def part_order(ctx, thorough):
                    "holds" if bad is None else "counterexample", seconds=time.time() - t0, nontrivial=True)
         if bad:
             break
+    # every facet with N >= 3 corners gives N - 2 triangles (triangle, quadrilateral, pentagon in one call)
+    ptsm = np.array([[0, 0, 1.0], [1, 0, 1], [0, 1, 1], [0, 0, 2.0], [1, 0, 2], [1, 1, 2], [0, 1, 2], [2, 0, 3.0], [3, 0, 3], [3.5, 1, 3], [2.5, 2, 3], [1.5, 1, 3]])
+    fcts = [[0, 1, 2], [3, 4, 5, 6], [7, 8, 9, 10, 11]]
+    om, tm, fim = mw.order_and_triangulate_polygons(ptsm, fcts, [np.array([0, 0, 1.0])] * 3)
+    okm = [len(o) for o in om] == [3, 4, 5] and len(tm) == 6 and list(fim) == [0, 1, 1, 2, 2, 2] and all(set(int(v) for v in t) <= set(fcts[f]) for t, f in zip(tm, fim))
+    ctx.record("triangulation: a triangle, a quadrilateral and a pentagon give 1 + 2 + 3 triangles of their own corners (ground instance)", "holds" if okm else "counterexample", nontrivial=True, method="ground instance")
+    if not okm:
+        bad = bad or ("triangulation", "facets with 3, 4, 5 corners give %d triangles with facet indices %s" % (len(tm), list(fim)))
     # triangulation: fan from the first vertex, outward for a CCW polygon; degenerate pruning on a concrete duplicate
     pts = np.array([[0, 0, 1.0], [1, 0, 1], [1, 1, 1], [0, 1, 1], [1, 1, 1 + 1e-9]])
     ordered, tris, fi = mw.order_and_triangulate_polygons(pts, [[0, 1, 2, 3, 4]], [np.array([0, 0, 1.0])])
